@@ -364,6 +364,42 @@ theorem bernoulli_saturated (dt x u : Rat) (h : 1000 ≤ x * dt) (hu : u < 1) :
   · simp only [decide_eq_true_eq]; linarith
   · simpa using hu
 
+/-! ## Float rounding does not shrink the gap
+
+The theorems above are about exact arithmetic.  These two say why IEEE rounding (monotone, exact
+on integers below 2^53) cannot shorten the refractory gap when `refrac = k·dt`: the floors of the
+ROUNDED running sums are still `k` apart, and the ROUNDED count-down still needs `k` decrements. -/
+
+/-- offline: rounded `cumsum` of intervals `≥ k` -/
+theorem min_gap_rounded (rnd : Rat → Rat) (hmono : ∀ a b, a ≤ b → rnd a ≤ rnd b)
+    (hint : ∀ n : Int, rnd (n : Rat) = (n : Rat)) (k : Nat) (l : List Rat)
+    (hl : ∀ x ∈ l, (k : Rat) ≤ x) :
+    (cumsumR rnd 0 l).Pairwise (fun a b => a.floor + (k : Int) ≤ b.floor) :=
+  (cumsumR_floor_sep rnd hmono hint k 0 l hl).2
+
+/-- online: a rounded decrement of an interval `≥ r` leaves it `≥ r − 1` -/
+theorem online_gap_rounded (rnd : Rat → Rat) (hmono : ∀ a b, a ≤ b → rnd a ≤ rnd b)
+    (hint : ∀ n : Int, rnd (n : Rat) = (n : Rat)) (r : Int) (iv : Rat) (h : (r : Rat) ≤ iv) :
+    ((r - 1 : Int) : Rat) ≤ rnd (iv - 1) := rounded_decrement rnd hmono hint r iv h
+
+/-- inhomogeneous Bernoulli encoder: silent exactly where its rate is 0 -/
+theorem bernoulliInhom_zero_is_silent (dt : Rat) (X U : List (List Rat))
+    (hU : ∀ r ∈ U, ∀ u ∈ r, (0 : Rat) ≤ u) (t i : Nat) (xs : List Rat) (out : List Bool)
+    (ht : (bernoulliInhomT dt X U)[t]? = some out) (hX : X[t]? = some xs) (hx : xs[i]? = some 0) :
+    out[i]? ≠ some true := by
+  simp only [bernoulliInhomT, List.getElem?_zipWith, hX] at ht
+  cases hu : U[t]? with
+  | none => simp [hu] at ht
+  | some u =>
+    simp only [hu, Option.some.injEq] at ht
+    subst ht
+    rw [List.getElem?_zipWith, hx]
+    cases hui : u[i]? with
+    | none => simp
+    | some v =>
+      have hv : 0 ≤ v := hU u (List.mem_of_getElem? hu) v (List.mem_of_getElem? hui)
+      simp [prob, not_lt.2 hv]
+
 /-! ## `deterministic`: the model is a pure function of inputs and samples
 
 Trivial in Lean (every definition is a function); stated so that the clause has a name.  The
@@ -386,8 +422,18 @@ theorem enc_reachable_inv (steps : Int) (dt freq : Rat) (refrac : Option Rat) (c
     (s : EncState) (h : encCtor steps dt freq refrac comp = some s) (ops : List CfgOp) :
     EncInv (encRun s ops) := encRun_inv s ops (encCtor_inv steps dt freq refrac comp s h)
 
+/-- A rejected setter leaves every public attribute as it was (the hidden "refrac follows dt" flag
+may be cleared by a rejected negative `refrac`: `encFail`). -/
 theorem enc_rejected_unchanged (s : EncState) (op : CfgOp) (h : encSet s op = none) :
-    (encStep s op).1 = s := by simp [encStep, h]
+    (encStep s op).2 = false ∧ (encStep s op).1.steps = s.steps ∧ (encStep s op).1.dt = s.dt ∧
+    (encStep s op).1.freq = s.freq ∧ (encStep s op).1.refrac = s.refrac ∧ (encStep s op).1.comp = s.comp := by
+  simp only [encStep, h]
+  cases op with
+  | setRefrac r =>
+    cases r with
+    | none => simp [encFail]
+    | some r => simp only [encFail]; split <;> simp
+  | _ => simp [encFail]
 
 theorem expCfg_R (s : EncState) : s.expCfg.R = s.refrac / s.dt := rfl
 
@@ -425,6 +471,16 @@ def exEnc : EncState := ⟨10, 1, 100, 3, false, true⟩
 example : encCtor 10 1 100 (some 3) true = some exEnc := by decide +kernel
 example : exEnc.expCfg.compat (100 * 1) = true := by decide +kernel
 example : exEnc.expCfg.R = 3 := by decide +kernel
+example : EncInv exEnc := enc_ctor_inv 10 1 100 (some 3) true exEnc (by decide +kernel)
+/-- the audited hypothesis `frequency · refrac < 1000` is satisfiable: 100 Hz · 3 ms -/
+example : (100 : Rat) * (exEnc.expCfg.R * exEnc.expCfg.dt) < 1000 := by decide +kernel
+/-- … and necessary: at 400 Hz · 3 ms (negative interval scale, D26) the samples `4, 4, 1` put spikes at
+steps 1 and 2, one step apart although `refrac = 3·dt`; online the element fires at every step. -/
+example : (⟨10, 1, some 3, true⟩ : ExpCfg).compat 400 = false := by decide +kernel
+example : expOffline ⟨10, 1, some 3, true⟩ 400 [4, 4, 1] =
+    some [false, true, true, false, true, false, false, false, false, false] := by decide +kernel
+example : expOnline ⟨3, 1, some 3, true⟩ [400] [4] [[4], [4], [4]] = some [[true], [true], [true]] := by
+  decide +kernel
 /-- 400 Hz × 3 ms is rejected by the constructor (D26) and by every setter path (D30 for `dt`). -/
 example : encCtor 20 1 400 (some 3) true = none := by decide +kernel
 example : encSet ⟨20, 1, 400, 2, false, true⟩ (.setRefrac (some 3)) = none := by decide +kernel
